@@ -15,6 +15,8 @@ RULE = ('(i) glob matcher: pattern x hostmask pairs, exhaustive up to length 3 (
         'plus directed histories in which a cached answer goes stale without invalidateCache (a login expires and another '
         'sender\'s cache miss / another account\'s setUser purges it from user.auth; the Multiple-matches branch strips masks) followed '
         'by the lookup of the cached sender; '
+        'and NICK messages of identified clients fed to the live Irc with supybot.followIdentificationThroughNickChanges on or '
+        'off (Irc.doNick stepped against Model.nickchange; oracle: a login followed to the new hostmask is not kept for the old one); '
         '(iii) command layer: the histories interleave real User plugin commands (hostmask add/remove, identify, unidentify, changename, '
         'register) sent as private messages through a live bot (Owner, Misc, Config, User loaded) with the API operations; every command '
         '(and user set secure on/off/toggle from matching, foreign, identified and unidentified hostmasks) is one step of the model (run_cmd) from a snapshot of the real state, with passwords / owner flag / syntax checks observed from '
@@ -376,7 +378,38 @@ def gen_history(rng):
             ops.append(['lookup', rng.choice(HOSTS)])
         else:
             ops.append(gen_cmd(rng, known))
+    if rng.random() < 0.3:
+        k = rng.randint(0, len(ops))
+        ops.insert(k, ['nick', rng.choice(HOSTS), rng.choice(NEWNICKS)])
+        return {'timeout': timeout, 'follow': rng.random() < 0.7, 'ops': ops}
     return {'timeout': timeout, 'ops': ops}
+
+
+NEWNICKS = ['zed', 'Q2', 'ab', 'AB', 'nick2', 'cb', 'n{ck']
+
+
+def gen_nick(rng):
+    """an identified client changes nick (supybot.followIdentificationThroughNickChanges on or off); then whoever holds the old
+    hostmask, and the client under its new one, are looked up"""
+    import supybot.ircutils as ircutils
+    h = rng.choice(HOSTS)
+    own = [m for m in MASKS if not ref_match(m, h)]
+    ops = [['new'], ['new'], ['set', 1, ['u1', [rng.choice(own)] if rng.random() < 0.6 else [], None, False]]]
+    ops.append(['auth', 1, h] if rng.random() < 0.5 else ['cmd', h, ['identify', 'u1', '', PASSWORD]])
+    if rng.random() < 0.3:
+        ops.append(['auth', 1, rng.choice(HOSTS)])
+    if rng.random() < 0.5:
+        ops.append(['lookup', h])
+    if rng.random() < 0.3:
+        ops.append(['tick', rng.choice([1, 5, 11])])
+    nn = rng.choice(NEWNICKS)
+    ops.append(['nick', h, nn])
+    newP = ircutils.joinHostmask(nn, *ircutils.splitHostmask(h)[1:])
+    ops += rng.sample([['lookup', h], ['lookup', newP], ['lookup', h], ['cmd', newP, ['unidentify', '', '', PASSWORD]]], rng.randint(2, 4))
+    if rng.random() < 0.4:
+        ops += [['nick', newP, rng.choice(NEWNICKS)], ['lookup', newP], ['lookup', h]]
+    tail = gen_history(rng)['ops'][:rng.randint(0, 6)]
+    return {'timeout': rng.choice([0, 0, 10]), 'follow': rng.random() < 0.8, 'ops': ops + [o for o in tail if o[0] != 'new']}
 
 
 def gen_stale(rng):
@@ -458,7 +491,10 @@ def run_history(ctx, mods, hist, model=True, kind='history'):
     clock.now = 1000
     ircdb.time.time = lambda: clock.now
     timeout = hist['timeout']
+    follow = bool(hist.get('follow', False))
     conf.supybot.databases.users.timeoutIdentification.setValue(timeout)
+    conf.supybot.followIdentificationThroughNickChanges.setValue(follow)
+    _BOT['irc'].state.nicksToHostmasks.clear()
     steps, fails = [], []
     try:
         for idx, o in enumerate(hist['ops']):
@@ -466,6 +502,36 @@ def run_history(ctx, mods, hist, model=True, kind='history'):
                 clock.now += o[1]
                 continue
             before = snapshot(users)
+            if o[0] == 'nick':
+                # a NICK message from client o[1] seen by the bot (Irc.doNick, supybot.followIdentificationThroughNickChanges)
+                P = o[1]
+                newP = ircutils.joinHostmask(o[2], *ircutils.splitHostmask(P)[1:])
+                B = bot()
+                B['obs'].clear()
+                _drain()
+                try:
+                    B['irc'].feedMsg(B['ircmsgs'].IrcMsg(prefix=P, command='NICK', args=(o[2],)))
+                except Exception as e:
+                    B['obs']['feed_raised'] = type(e).__name__
+                _drain()
+                obs = dict(B['obs'])
+                after = snapshot(users)
+                steps.append((timeout, clock.now, before, o, after, ('nick', newP, follow, 'set_raised' in obs, bool(obs.get('ambiguous')))))
+                # ---- direct oracle: a login followed to the new hostmask is no longer a login from the old one
+                # ("identified ... from that exact hostmask": whoever holds the old nick afterwards did not identify)
+                if follow and 'set_raised' not in obs and not obs.get('ambiguous') and _fold(newP) != _fold(P):
+                    b4 = dict((i, u) for i, u in before[0])
+                    for i, u in after[0]:
+                        old = b4.get(i)
+                        if old is None:
+                            continue
+                        gained = [e for e in u[2] if e[1] == newP and e not in old[2]]
+                        kept = [e for e in u[2] if _fold(e[1]) == _fold(P)]
+                        if gained and (kept or len(u[2]) > len(old[2])):
+                            fails.append({'step': idx, 'h': P, 'kind': 'nickchange-login-kept',
+                                          'detail': 'NICK %s -> %s: account %r got the login %r for the new hostmask but keeps %r (logins before: %r)'
+                                                    % (P, o[2], i, gained, kept or u[2], old[2])})
+                continue
             hs = None
             if o[0] == 'set':
                 hs = ircutils.IrcSet(o[2][1])
@@ -546,13 +612,23 @@ def run_history(ctx, mods, hist, model=True, kind='history'):
     finally:
         ircdb.time.time = saved_time
         conf.supybot.databases.users.timeoutIdentification.setValue(0)
+        conf.supybot.followIdentificationThroughNickChanges.setValue(False)
     if model and steps:
-        outs = ctx.model([[3, [t, now, b, o[1], wire_cmd(o[2]), r[4]]] if o[0] == 'cmd' else [1, [t, now, b, wire_op(o)]]
+        outs = ctx.model([[3, [t, now, b, o[1], wire_cmd(o[2]), r[4]]] if o[0] == 'cmd'
+                          else [4, [t, now, b, o[1], r[1], r[2]]] if o[0] == 'nick' else [1, [t, now, b, wire_op(o)]]
                           for (t, now, b, o, a, r) in steps])
         for (t, now, b, o, a, r), mo in zip(steps, outs):
             ctx.case(kind + '-' + (o[0] if o[0] != 'cmd' else 'cmd-' + o[2][0]), {'state': b, 'op': o, 'now': now, 'timeout': t},
                      nontrivial=bool(b[0]))
             if mo is None:
+                continue
+            if o[0] == 'nick':
+                ms, mr = canon_state(dec_state(mo[0])), wire.r(mo[1])
+                if r[4] or (mr[0] == 'raise' and not r[3]):
+                    continue                      # a lookup hit the Multiple-matches branch: its exception is not observable here
+                if ms != canon_state(a) or (mr[0] == 'raise') != r[3]:
+                    ctx.disagree({'history': hist, 'state': b, 'op': o, 'now': now, 'timeout': t},
+                                 [ms, mr], [canon_state(a), ['raise' if r[3] else 'ok']], 'Irc.doNick (followed identification)')
                 continue
             if o[0] == 'cmd':
                 # one model step = the whole command; when a lookup of the real run hit the Multiple-matches branch the
@@ -635,6 +711,11 @@ CORPUS = [
     {'timeout': 10, 'ops': [['new'], ['set', 1, ['u1', ['zz!zz@zz'], None, False]], ['auth', 1, 'ab!x@y'], ['lookup', 'ab!x@y'],
                             ['tick', 8], ['auth', 1, 'q!q@q'], ['lookup', 'q!q@q'], ['lookup', 'ab!x@y'], ['tick', 5], ['lookup', 'ab!x@y'],
                             ['lookup', 'q!q@q']]},
+    # supybot.followIdentificationThroughNickChanges: the login moves to the new hostmask, it is not copied
+    {'timeout': 0, 'follow': True, 'ops': [['new'], ['set', 1, ['u1', ['zz!zz@zz'], None, False]], ['cmd', 'ab!x@y', ['identify', 'u1', '', 'secret']],
+                                           ['nick', 'ab!x@y', 'zed'], ['lookup', 'ab!x@y'], ['lookup', 'zed!x@y']]},
+    {'timeout': 0, 'follow': False, 'ops': [['new'], ['set', 1, ['u1', ['zz!zz@zz'], None, False]], ['auth', 1, 'ab!x@y'],
+                                            ['nick', 'ab!x@y', 'zed'], ['lookup', 'ab!x@y'], ['lookup', 'zed!x@y']]},
     # stale cache behind a purge: the login expires and ANOTHER sender's cache miss drops it from user.auth before the
     # expired sender comes back (the re-check of the cached id must not depend on user.auth being non-empty)
     {'timeout': 10, 'ops': [['new'], ['set', 1, ['u1', ['zz!zz@zz'], None, False]], ['auth', 1, 'ab!x@y'], ['lookup', 'ab!x@y'],
@@ -703,7 +784,7 @@ def run(ctx):
             ctx.fail(inp, 'hostmaskPatternEqual(%r, %r) = %r but IRC glob/case rules say %r' % (p, h, ir, not ir))
     # (ii) state machine
     hists = ([(h, 'corpus') for h in CORPUS] + [(gen_history(rng), 'history') for _ in range(ctx.n(400))]
-             + [(gen_stale(rng), 'stale') for _ in range(ctx.n(60))])
+             + [(gen_stale(rng), 'stale') for _ in range(ctx.n(60))] + [(gen_nick(rng), 'nick') for _ in range(ctx.n(60))])
     for hist, kind in hists:
         for f in run_history(ctx, mods, hist, kind=kind):
             inp = {'history': hist, 'step': f['step'], 'h': f['h'], 'kind': f['kind']}
@@ -739,14 +820,14 @@ def shrink(ctx, inp):
 
     def fails(ops):
         sub = type(ctx)(ctx.pid, ctx.tier, ctx.seed, {'model_ok': False})
-        fs = run_history(sub, mods, {'timeout': inp['history']['timeout'], 'ops': ops}, model=False)
+        fs = run_history(sub, mods, dict(inp['history'], ops=ops), model=False)
         return any(_same_failure(f, inp) for f in fs)
     ops = shrink_seq(inp['history']['ops'], fails, budget=150)
     sub = type(ctx)(ctx.pid, ctx.tier, ctx.seed, {'model_ok': False})
-    fs = [f for f in run_history(sub, mods, {'timeout': inp['history']['timeout'], 'ops': ops}, model=False) if _same_failure(f, inp)]
+    fs = [f for f in run_history(sub, mods, dict(inp['history'], ops=ops), model=False) if _same_failure(f, inp)]
     if not fs:
         return inp
-    out = {'history': {'timeout': inp['history']['timeout'], 'ops': ops}, 'step': fs[0]['step'], 'h': fs[0]['h'], 'kind': inp['kind']}
+    out = {'history': dict(inp['history'], ops=ops), 'step': fs[0]['step'], 'h': fs[0]['h'], 'kind': inp['kind']}
     for k in ('cmd', 'via', 'owned'):
         if k in inp:
             out[k] = inp[k]
